@@ -285,7 +285,7 @@ func (p *Prog) Has(ops ...string) bool {
 // ---- generators
 
 var (
-	bindKeys = []string{"x", "y", "n", "t", "cfg!", "id!", "l"}
+	bindKeys = []string{"x", "y", "n", "t", "cfg!", "id!", "l", "?p"}
 	smallVal = jsongen.Opts{Depth: 1, Width: 2, NoNull: false,
 		Strs: []string{"a", "b", "start", "n1", "n2", "error"}, Nums: []float64{0, 1, 2, 3, 0.5}, Keys: []string{"a", "b", "c"}}
 )
